@@ -885,6 +885,18 @@ class Model(CallsMixin, BuiltinsMixin):
                           % (n_consumed, len(dims)),
                           {'base': _dstr(base.dims)})
             return ARR(None, base.dt)
+        if base.note == 'bytes' and isinstance(base.idx, int):
+            ax_ = 0
+            for c in comps:
+                if c.k == 'none':
+                    continue
+                if ax_ == base.idx and c.k == 'int' and \
+                        dims[ax_] is not None and dims[ax_].as_int() != 1:
+                    self.site('S-bitwidth', node, 'violation',
+                              'one byte is taken from a packbits result whose '
+                              'packed axis holds %r bytes: the bits beyond the '
+                              'first 8 are dropped' % (dims[ax_],))
+                ax_ += 1
         out = []
         out_lay = []
         adv = []          # dims contributed by advanced indices
